@@ -49,7 +49,7 @@ def generate(rng, tier):
                                root_name=rng.choice(["main%d.rs", "lib%d.rs", "src/main%d.rs", "src/lib%d.rs"]) % i,
                                feats=rng.choice([{"modrs", "path", "inline"}, {"modrs", "path", "inline"}, {"modrs"},
                                                  {"modrs", "path", "cfg_attr_path"}, {"modrs", "cfg_if", "cfg_attr_path", "inline"},
-                                                 {"modrs", "cfg_if", "cfg_match"}]))
+                                                 {"modrs", "cfg_if", "cfg_match"}, {"modrs", "symlinkmod"}, {"modrs", "path", "symlinkmod"}]))
         trees.append(t.to_json())
         files.update(t.files)
     order = rng.shuffle(list(range(nroots)))
@@ -64,7 +64,8 @@ def generate(rng, tier):
         cfg = ""
         if rng.chance(25):
             cfg += "max_width = %d\n" % rng.choice([60, 80, 100])
-        cands = [f for f in trees[i]["reach"][1:] if os.path.basename(f) != "mod.rs"]
+        bases = [os.path.basename(f) for f in trees[i]["reach"]]
+        cands = [f for f in trees[i]["reach"][1:] if os.path.basename(f) != "mod.rs" and bases.count(os.path.basename(f)) == 1]
         if cands and rng.chance(60 if kind == "recoverable" else 25):
             g = rng.choice(cands)
             cfg += 'ignore = ["%s"]\n' % os.path.basename(g)
